@@ -53,6 +53,12 @@ type c20Scenario struct {
 	// be parsed: the run must end with a fatal error, after everything started for the earlier
 	// files has finished
 	BrokenLastRepo bool
+	// AllFail: every tool process exits with status 2 and prints nothing (a fixed answer, not a
+	// choice): several invocations fail in one run (every one of them collected, the run fatal; that the error named does not depend on the schedule is C02's business)
+	AllFail bool
+	// MaxProcs: what runtime.GOMAXPROCS(0) answers (0 = the number of CPUs). The bound on tool
+	// processes is the number of CPUs of the machine, whatever GOMAXPROCS has been raised to
+	MaxProcs int
 }
 
 type c20Expect struct {
@@ -84,6 +90,8 @@ func c20EffectiveShell(f *c20File, j *c20Job, s *c20Step) string {
 
 // c20Sanitize is the reference for placeholder replacement: each ${{ ... }} (up to the first }}
 // after it) becomes underscores of the same length.
+var c20SanitizeDontCare bool
+
 func c20Sanitize(s string) string {
 	var b strings.Builder
 	for {
@@ -91,8 +99,23 @@ func c20Sanitize(s string) string {
 		if i < 0 {
 			break
 		}
-		j := strings.Index(s[i:], "}}")
+		// the placeholder ends at the first }} that does not stand inside a string literal of the
+		// expression ('...', with '' for a quote)
+		j, quoted := -1, false
+		for k := i + 3; k < len(s); k++ {
+			if s[k] == '\'' {
+				quoted = !quoted
+			} else if !quoted && s[k] == '}' && k+1 < len(s) && s[k+1] == '}' {
+				j = k - i
+				break
+			}
+		}
 		if j < 0 {
+			if strings.Contains(s[i:], "}}") {
+				// a }} follows but only inside an unterminated string literal: the expression is
+				// malformed (and reported as such); what the tool gets then is not claimed
+				c20SanitizeDontCare = true
+			}
 			break
 		}
 		b.WriteString(s[:i])
@@ -220,6 +243,7 @@ type c20Run struct {
 }
 
 var c20Cur *c20Run
+var c20AllFail bool
 
 func c20Install() {
 	vexec.LookPathFn = func(file string) (string, error) {
@@ -232,6 +256,14 @@ func c20Install() {
 	vexec.Handler = func(name string, args []string) vexec.Outcome {
 		tool := filepath.Base(name)
 		menu := c20Menus[tool]
+		if c20AllFail {
+			for i, o := range menu {
+				if o.name == "exit-nonzero-empty-stdout" {
+					c20Cur.decisions = append(c20Cur.decisions, c20Decision{tool, i})
+					return o.out
+				}
+			}
+		}
 		c := 0
 		if x := vsched.Cur(); x != nil {
 			c = x.Choose(len(menu), tool)
@@ -393,6 +425,7 @@ func c20Scenarios() []*c20Scenario {
 	one("same-script-two-steps", c20File{Jobs: []c20Job{job("ubuntu-latest", "", same, same)}}, 2, "LintFile")
 	one("same-script-two-jobs", c20File{Jobs: []c20Job{job("ubuntu-latest", "", same), job("ubuntu-latest", "", same, c20Step{Shell: "sh", Script: "echo same $FOO", Plain: true})}}, 2, "Lint")
 	one("placeholder-only-difference", c20File{Jobs: []c20Job{job("ubuntu-latest", "", c20Step{"", "echo ${{ github.sha }} $FOO", true}, c20Step{"", "echo ${{ github.ref }} $FOO", true})}}, 1, "LintFile")
+	one("placeholder-with-braces-in-a-string", c20File{Jobs: []c20Job{job("ubuntu-latest", "", c20Step{Shell: "", Script: "echo ${{ format('{0}}}', github.sha) }} end"}, c20Step{Shell: "python", Script: "print(${{ '}}' }})"})}}, 2, "LintFile")
 	one("same-python-script", c20File{DefaultShell: "python", Jobs: []c20Job{job("ubuntu-latest", "", c20Step{Shell: "", Script: "import os", Plain: true}), job("ubuntu-latest", "", c20Step{Shell: "", Script: "import os", Plain: true})}}, 2, "LintFile")
 	// multi-file runs
 	two2 := func(name string, a, b c20File, cpus int) {
@@ -408,6 +441,21 @@ func c20Scenarios() []*c20Scenario {
 	for _, cpus := range []int{1, 2} {
 		scs = append(scs, &c20Scenario{Name: fmt.Sprintf("files-mixed+broken-repository-cpu%d", cpus), Files: []c20File{fbp, fp}, CPUs: cpus, API: "LintFiles", BrokenLastRepo: true})
 	}
+	// every tool process fails
+	for _, cpus := range []int{1, 2} {
+		for _, api := range []string{"LintFile", "Lint"} {
+			scs = append(scs, &c20Scenario{Name: fmt.Sprintf("all-fail-three-steps-cpu%d/%s", cpus, api), CPUs: cpus, API: api, AllFail: true,
+				Files: []c20File{{Jobs: []c20Job{job("ubuntu-latest", "", c20Step{Shell: "", Script: "a"}, c20Step{Shell: "python", Script: "x"}, c20Step{Shell: "sh", Script: "b"}, c20Step{Shell: "python", Script: "y"})}}}})
+		}
+		scs = append(scs, &c20Scenario{Name: fmt.Sprintf("all-fail-two-files-cpu%d", cpus), CPUs: cpus, API: "LintFiles", AllFail: true,
+			Files: []c20File{{Jobs: []c20Job{job("ubuntu-latest", "", c20Step{Shell: "", Script: "a"}, c20Step{Shell: "", Script: "b"})}}, {Jobs: []c20Job{job("ubuntu-latest", "", c20Step{Shell: "python", Script: "x"}, c20Step{Shell: "", Script: "c"})}}}})
+	}
+	// GOMAXPROCS raised above the number of CPUs (GOMAXPROCS=n in the environment)
+	scs = append(scs, &c20Scenario{Name: "three-steps-cpu1-gomaxprocs3", CPUs: 1, MaxProcs: 3, API: "LintFile",
+		Files: []c20File{{Jobs: []c20Job{job("ubuntu-latest", "", c20Step{Shell: "", Script: ph}, c20Step{Shell: "python", Script: "x"}, c20Step{Shell: "sh", Script: "y"})}}}})
+	scs = append(scs, &c20Scenario{Name: "two-jobs-cpu1-gomaxprocs2", CPUs: 1, MaxProcs: 2, API: "Lint",
+		Files: []c20File{{Jobs: []c20Job{job("ubuntu-latest", "", c20Step{Shell: "", Script: ph}), job("ubuntu-latest", "python", c20Step{Shell: "", Script: two})}}}})
+	scs = append(scs, &c20Scenario{Name: "files-bash+python-cpu1-gomaxprocs4", CPUs: 1, MaxProcs: 4, API: "LintFiles", Files: []c20File{fb, fp}})
 	two2("files-none+bash-cpu1", c20File{Jobs: []c20Job{job("ubuntu-latest", "", c20Step{Shell: "pwsh", Script: "x"})}}, fb, 1)
 	return scs
 }
@@ -430,6 +478,8 @@ func c20RunScenario(t *testing.T, r *vReport, sc *c20Scenario, maxPreempt, maxFa
 	vWriteFiles(t, dir, files)
 	c20Install()
 	defer c20Uninstall()
+	c20AllFail = sc.AllFail
+	defer func() { c20AllFail = false }()
 	body := func(x *vsched.Exec) string {
 		run := &c20Run{}
 		c20Cur = run
@@ -464,7 +514,7 @@ func c20RunScenario(t *testing.T, r *vReport, sc *c20Scenario, maxPreempt, maxFa
 		}
 		return fmt.Sprintf("err=%s diags=%v decisions=%v output_lines=%d", errS, ds, dec, strings.Count(run.out, "\n"))
 	}
-	cfg := vsched.Config{MaxPreempt: maxPreempt, MaxFault: maxFault, MaxDev: 0, DevSites: map[int]bool{}, NumCPU: sc.CPUs}
+	cfg := vsched.Config{MaxPreempt: maxPreempt, MaxFault: maxFault, MaxDev: 0, DevSites: map[int]bool{}, NumCPU: sc.CPUs, MaxProcs: sc.MaxProcs}
 	if replay != nil {
 		for k := 0; k < 2; k++ {
 			x, obs := vsched.Replay(cfg, replay, body)
@@ -551,8 +601,14 @@ func TestVerifC20(t *testing.T) {
 	}
 
 	// Engine B part: placeholder replacement keeps length and replaces exactly the placeholders
-	alpha := []byte("${}a \n")
+	alpha := []byte("${}a '\n")
 	var idx int64
+	// longer scripts than the enumeration reaches: }} inside string literals of the expression
+	if r.Shard == 0 {
+		for _, sc := range []string{"${{'}}'}}", "echo ${{ format('{0}}}', github.sha) }} ${{ '}}' }} end", "${{ 'a''}}' }}x ${{ 1 }}", "a ${{ contains('}}', '${{') }} b", "${{ '' }} }} ${{ '}}'}}"} {
+			c20SanitizeCheck(r, sc)
+		}
+	}
 	buf := make([]byte, 0, sanLen)
 	for l := 0; l <= sanLen; l++ {
 		total := int64(1)
@@ -663,11 +719,12 @@ func c20RealProcess(t *testing.T, r *vReport) {
 
 func c20SanitizeCheck(r *vReport, s string) {
 	got := sanitizeExpressionsInScript(s)
+	c20SanitizeDontCare = false
 	want := c20Sanitize(s)
 	r.Evaluations++
 	r.Transitions++
 	r.Validated++
-	if got != want {
+	if got != want && !c20SanitizeDontCare {
 		r.Violation("sanitize", fmt.Sprintf("sanitizeExpressionsInScript(%q) = %q, expected %q", s, got, want), map[string]any{"script": s})
 	}
 	if len(got) != len(s) {
